@@ -123,6 +123,17 @@ StepTags(pre, post, ev, a, ok, o) ==
   T(\A x \in ASSETS : KIND[x] = "nat" \/ ~NGt(HeldBy(post, x), HeldBy(pre, x)) \/
         (ok /\ ((ev = "Deposit" /\ a.a = x) \/ (ev = "NstUpdate" /\ a.a = x /\ NIsPos(a.d)))),
     "C01_OnlyDepositsCreate") \cup
+  \* --- C01: a negative NST adjustment takes exactly the requested amount out of the ledger as long as
+  \*     the staker's withdrawable balance and pending undelegations cover it (integer arithmetic, no
+  \*     rounding involved); beyond that it continues into the delegated shares (rounded per operator),
+  \*     and it never takes more than requested ---
+  (IF ev = "NstUpdate" /\ ok /\ NIsNeg(a.d) THEN
+     LET want == NNeg(a.d)
+         liquid == NAdd(pre.stk[<<a.s, a.a>>].wd,
+                        SumF({k \in DOMAIN pre.recs : pre.recs[k].s = a.s /\ pre.recs[k].a = a.a}, LAMBDA k : pre.recs[k].actual))
+         dec == NSub(HeldBy(pre, a.a), HeldBy(post, a.a))
+     IN T(NLe(dec, want) /\ NGe(dec, NMin(want, liquid)), "C01_NstAdjustmentNotApplied")
+   ELSE {}) \cup
   \* --- C09: a reported failure leaves no trace ---
   T(ok \/ ev = "EndBlock" \/ post = pre, "C09_FailedButChanged") \cup
   \* --- C02: fairness and amounts of share-moving operations ---
